@@ -166,6 +166,22 @@ def run_check(prop_name, tier, master, runs=None, wall_cap=None, workers=None, o
         reported.append(path)
         exit_code = 1
 
+    # determinism sample: a few of the runs are executed again in other worker processes; any difference in what
+    # they report (verdict, traced steps, switches, faults, interleaving digests) means the simulator is not
+    # deterministic and none of its verdicts - passes included - can be believed
+    det_n = min(len(results), prop.TIERS[tier].get('det_sample', 12))
+    det_bad = []
+    if det_n and not harness:
+        step = max(1, len(results) // det_n)
+        sample = [r for r in results[::step]][:det_n]
+        again = core.rerun(prop_name, tier, master, [r['index'] for r in sample], workers)
+        det_bad = [r['index'] for r in sample if again.get(r['index']) != core.run_digest(r)]
+        stats['determinism_sample'] = {'reexecuted': len(sample), 'diverged': len(det_bad)}
+        for i in det_bad[:3]:
+            print(f'HARNESS-ERROR property={prop.ID} run index {i} did not reproduce itself when executed again (nondeterministic simulator)')
+        if det_bad:
+            exit_code = 2
+
     if harness:
         for seed, h in harness[:5]:
             print(f'HARNESS-ERROR property={prop.ID} seed={seed}: {str(h)[:1500]}')
@@ -185,6 +201,8 @@ def run_check(prop_name, tier, master, runs=None, wall_cap=None, workers=None, o
     for p in problems:
         print(f'HARNESS-ERROR property={prop.ID} reach: {p}')
         exit_code = max(exit_code, 2) if exit_code != 1 else 1
+    if det_bad and exit_code != 1:
+        exit_code = 2
     print(f'done property={prop.ID} runs={n} nontrivial={len(keys)} violations={n_viol} known={n_known} '
           f'harness_errors={len(harness)} wall={total_wall:.1f}s capped={capped} exit={exit_code}')
     return exit_code
